@@ -68,9 +68,9 @@ Print Assumptions C20_accumulate_refuted.
 
 (* ---- non-vacuity: a three-class acyclic table satisfies every hypothesis ---- *)
 Definition E3 : ctab :=
-  [("In", [mkfld "a" TInt false (Some (JInt 1))]);
-   ("Mid", [mkfld "i" (TClass "In") true None; mkfld "$ref" (TList (TClass "In")) false None]);
-   ("Top", [mkfld "m" (TUnion [TClass "Mid"; TNone]) false (Some JNull); mkfld "t" (TTuple [TClass "In"; TStr]) true None])].
+  [("In", [mkfld "a" TInt false (Some (JInt 1)) None]);
+   ("Mid", [mkfld "i" (TClass "In") true None (Some "d"); mkfld "$ref" (TList (TClass "In")) false None None]);
+   ("Top", [mkfld "m" (TUnion [TClass "Mid"; TNone]) false (Some JNull) None; mkfld "t" (TTuple [TClass "In"; TStr]) true None None])].
 Definition rk3 (c: string) : nat :=
   if String.eqb c "In" then 0 else if String.eqb c "Mid" then 1 else 2.
 
@@ -206,4 +206,36 @@ Proof.
   split; [|split; reflexivity].
   eexists _, _. split; [vm_compute; reflexivity|]. split; [|reflexivity].
   repeat constructor.
+Qed.
+
+(* ---- Instance.fields() / Instance.alias as a function of the fields as written (anchor: field iteration) ---- *)
+Theorem C20_fields_digest : forall al l f,
+  In f (digest_fields al l) ->
+  exists r, In r l /\ r_init r = true /\ digest_field al r = Some f /\
+            f_req f = (match r_def r with RNone => true | _ => false end) /\
+            (f_default f <> None <-> exists v, r_def r = RDefault v).
+Proof. exact digest_fields_spec. Qed.
+Print Assumptions C20_fields_digest.
+
+(* the new constructs (leaf formats, Enum / Literal, TypedDict with sorted required keys, description, alias resolution,
+   init=False) in one run: total, closed, well formed and a round-trip fixed point *)
+Definition ER : list (string * rcls) :=
+  [("Leafy", mkrcls [("u", "cfg_u")]
+      [mkrfld "when" None None (TLeaf "string" (Some "date-time") None) true RNone (Some "when it happened");
+       mkrfld "u" None None (TLeaf "string" (Some "uuid") None) true (RDefault (JStr "0")) None;
+       mkrfld "a2" None (Some "ann2") TBool true (RDefault (JBool false)) None;
+       mkrfld "hidden" None None TInt false (RDefault (JInt 1)) None;
+       mkrfld "e" (Some "") (Some "ann") (TEnum false [JStr "a"; JInt 2]) true RFactory (Some "");
+       mkrfld "l" (Some "meta") (Some "ann") (TEnum true [JInt 0]) true (RDefault (JInt 0)) None;
+       mkrfld "td" None None (TTyped ["b"; "a"; "c"] [TInt; TClass "Other"; TStr] [true; true; false]) true RFactory None]);
+   ("Other", mkrcls [] [mkrfld "z" None None TInt true RNone None])].
+
+Example C20_new_constructs_nonvacuous :
+  keys (match lookup "Leafy" (digest_tab ER) with Some fs => map (fun f => (f_alias f, f_ty f)) fs | None => [] end)
+    = ["when"; "cfg_u"; "ann2"; "e"; "meta"; "td"] /\
+  exists d st, build (digest_tab ER) (mkcfg true "#/$defs") 3 true None (TList (TClass "Leafy")) [] = SOk (d, st)
+               /\ meta_ok d = true /\ norm d = NOk d /\ refs d = ["#/$defs/Other"; "#/$defs/Leafy"] /\ keys st = ["Other"; "Leafy"].
+Proof.
+  split; [reflexivity|].
+  eexists _, _. split; [vm_compute; reflexivity|]. repeat split; vm_compute; reflexivity.
 Qed.
